@@ -165,6 +165,27 @@ where
     }
 }
 
+#[cfg(feature = "verif-hooks")]
+impl<T, P, S, BIn, K> ConnectionPoolService<T, P, S, BIn, K>
+where
+    T: Transport,
+    P: Protocol<T::IO, BIn>,
+    P::Connection: PoolableConnection<BIn>,
+    BIn: Send + 'static,
+    K: pool::Key,
+{
+    /// Read-only snapshot of the pool (empty without a pool), for the verification harness.
+    pub fn verif_pool_snapshot<F>(&self, visit: F) -> Vec<pool::VerifPoolSnapshot>
+    where
+        F: Fn(&P::Connection) -> u64,
+    {
+        self.pool
+            .as_ref()
+            .map(|pool| pool.verif_snapshot(visit))
+            .unwrap_or_default()
+    }
+}
+
 impl
     ConnectionPoolService<
         TlsTransport<TcpTransport>,
